@@ -209,7 +209,7 @@ def run(ctx):
     for e in sub.errors:
         ctx.error("shared C15 rules: " + e)
     for o in sub.obligations:
-        if o.rule in ("C15.R1", "C15.R2", "C15.R4"):    # XOR same function, rotation build = parse with negated amount, codecs inverse
+        if o.rule in ("C15.R1", "C15.R2", "C15.R4", "C15.R6"):    # XOR same function, rotation build = parse with negated amount (table and kernels complete in both directions), codecs inverse
             ctx.ob("C02.R8", o.where, o.ok, o.what, key=o.key, loc=o.loc, detail=o.detail)
     ctx.floor("C02.R8", 20)
     from . import C04
@@ -221,8 +221,10 @@ def run(ctx):
     C06.helper_checks(ctx, "C02.R10")
     # ---------------------------------------------------------------- R11 what parse accepts, build accepts: the configuration guards and the stream amounts of
     # _parse and _build agree class by class (shared with C01.R2/R3), and the bit-level stream closes under the same conditions on both sides (C10.R4)
-    from . import C01, C10
-    for mod, rules in ((C01, ("C01.R2", "C01.R3")), (C10, ("C10.R4",))):
+    # ... an alternative / element that fails while building leaves no bytes behind (C09.R3/R4: the rebuilt bytes would not re-parse to the value),
+    # and build sets up the same nested scope as parse, so that what parse returned (Index values, computed members) can be built again (C07.R1)
+    from . import C01, C10, C09, C07
+    for mod, rules in ((C01, ("C01.R2", "C01.R3")), (C10, ("C10.R4",)), (C09, ("C09.R3", "C09.R4")), (C07, ("C07.R1",))):
         sub = _Ctx(mod.__name__.split(".")[-1], ctx.tier, ctx.root, model=ctx.model)
         sub._summ = summariser(ctx)
         mod.run(sub)
